@@ -89,6 +89,8 @@ def first_difference(a, b, path=""):
 
 
 def deep_clone(v):
+    if isinstance(v, S.Arr):
+        return S.Arr(v.data)
     if isinstance(v, dict):
         return {k: deep_clone(x) for k, x in v.items()}
     if isinstance(v, list):
@@ -149,6 +151,11 @@ def cards(spec):
         for k in spec["optional"]:
             th.pop(k, None)
             ob.pop(k, None)
+    elif leg == "array-valued":
+        # sequences handed over as (float64) numpy arrays: np.asarray(x, dtype=float) is then the caller's own object, not a copy
+        ob["interpolation_xgrid"] = S.Arr(list(ob["interpolation_xgrid"]))
+        if spec["process"] != "CC":
+            th["CKM"] = S.Arr(list(th["CKM"]))  # (the CC branch of the unchanged code reads the CKM matrix only from a string or a list)
     return cell, th, ob
 
 
@@ -194,9 +201,22 @@ def _job(spec):
         R._install_eko_overrides(ev, proj, ext)
         evbox.append(ev)
         ev.watch_abort = True  # a write into the caller's cards is the violation itself: stop folding there
+        watched_cells = {}
         for root, label in ((th, "theory"), (ob, "observables")):
-            for i in container_ids(root):
-                ev.watched[i] = label
+            for i, c_ in container_ids(root).items():
+                if isinstance(c_, S.Cell):
+                    watched_cells[i] = label
+                else:
+                    ev.watched[i] = label
+
+        def cell_watch(cells, _ev=ev):
+            for c_ in cells:
+                if id(c_) in watched_cells:
+                    hit = (watched_cells[id(c_)], "an in-place array operation (the array is the caller's own: np.asarray / a view / an alias did not copy it)", getattr(_ev, "current_stmt", None))
+                    _ev.watch_hits.append(hit)
+                    raise S.WatchedWrite(*hit)
+
+        S.CELL_WATCH[0] = cell_watch if watched_cells else None
         rcls = proj.cls("yadism.runner", "Runner")
         runner = ev.instantiate(S.ClassVal(ev, rcls), [th, ob], {})
         compare("Runner(theory, observables)")
@@ -223,7 +243,8 @@ def _job(spec):
             used = runner.attrs["configs"].attrs["managers"]["interpolator"].attrs["xgrid"].attrs["raw"]
             if not (isinstance(xg, dict) and snap(list(xg.get("grid"))) == snap(list(used))):
                 problems.append(f"{tag} output grid {snap(xg.get('grid')) if isinstance(xg, dict) else xg} is not the grid the operators refer to ({snap(list(used))})")
-            if leg != "unsorted-grid" and not (isinstance(xg, dict) and snap(xg.get("grid")) == snap(before_o["interpolation_xgrid"])):
+            req = before_o["interpolation_xgrid"]
+            if leg != "unsorted-grid" and not (isinstance(xg, dict) and snap(list(xg.get("grid"))) == snap(list(req.data if isinstance(req, S.Arr) else req))):
                 problems.append(f"{tag} output grid differs from the requested (ascending) interpolation_xgrid")
             if list(o_.store.get("pids", [])) != [22, -6, -5, -4, -3, -2, -1, 21, 1, 2, 3, 4, 5, 6]:
                 problems.append(f"{tag} output pids are not eko's flavour basis")
@@ -276,9 +297,9 @@ def specs(tier, optional=()):
         for target, tmc, (obs, process, projectile), legacy in itertools.product(
             ["proton", "iron", "marble", {"Z": Fraction(1), "A": Fraction(2)}], [0, 1],
             [(["F2_charm", "FL_total"], "NC", "electron"), (["XSHERANC", "F2_total"], "NC", "positron"), (["XSCHORUSCC_charm", "F3_light"], "CC", "neutrino")],
-            ["plain", "none-keys", "qed-keys", "absent-keys", "minimal", "unsorted-grid"],
+            ["plain", "none-keys", "qed-keys", "absent-keys", "minimal", "unsorted-grid", "array-valued"],
         ):
-            if legacy in ("minimal", "unsorted-grid") and (tmc or target in ("marble",) or isinstance(target, dict)):
+            if legacy in ("minimal", "unsorted-grid", "array-valued") and (tmc or target in ("marble",) or isinstance(target, dict)):
                 continue
             if tier == "quick":
                 if target == "marble" and legacy != "plain":
